@@ -292,7 +292,9 @@ func checkProp(P *Prog, prop, tier string, perObl int, verbose, keep bool, t0 ti
 		if strings.Contains(k, "#") {
 			continue
 		}
-		if specProps(s)[prop] {
+		if specProps(s)[prop] || hookProps(P)[prop] {
+			// a property served by a protected/onwrite hook is checked at every
+			// access in every function under contract
 			keys = append(keys, k)
 		}
 	}
@@ -325,4 +327,17 @@ func checkProp(P *Prog, prop, tier string, perObl int, verbose, keep bool, t0 ti
 	}
 	wg.Wait()
 	return report(P, prop, tier, results, kf, verbose, t0)
+}
+
+func hookProps(P *Prog) map[string]bool {
+	m := map[string]bool{}
+	for _, h := range P.specs.Hooks {
+		if h.Kind != "protected" {
+			continue
+		}
+		for _, p := range h.Props {
+			m[p] = true
+		}
+	}
+	return m
 }
